@@ -1637,4 +1637,254 @@ theorem RInv_drainC {i : SInput} : ∀ (fuel : Nat) {s : CSt}, RInv i s → QInv
     · exact h
     · exact ih (RInv_stepC h hq _) (QInv_stepC hq _)
 
+theorem RInv_init (i : SInput) : RInv i (initC i) := by
+  unfold initC
+  have e := nextSpawn_mpc_irrel i { base := { pcs := [] :: (progs i).map fun p => segSteps p.segs },
+                                    flags := i.workers.map fun _ => false } (.spawn 0) 0
+  rw [← e]
+  refine RInv_nextSpawn ?_ (Nat.zero_le _) (fun _ => by simp [unfinished]) (by simp) (by simp) 0 rfl
+  refine ⟨by simp, fun hc => by rcases hc with hc | ⟨w, hc⟩ | ⟨e, hc⟩ <;> simp at hc, ?_, by simp, ?_, Or.inl rfl⟩
+  · intro _ _
+    refine ⟨rfl, ?_, by simp⟩
+    intro b hb; simp at hb; exact hb.2
+  · intro c hc; simp at hc
+
+theorem RInv_final (i : SInput) : RInv i (finalC i) :=
+  RInv_drainC _ (RInv_runC _ (RInv_init i) (QInv_init i)) (QInv_runC _ (QInv_init i))
+
+/-! ## delivery: the caller's StreamResult gets every event once, in the worker's order -/
+
+def statusesOf (l : List Item) : List SEv := l.filterMap fun | .status e => some e | _ => none
+
+def sinkOf (w : Nat) (sink : List (SEv × Bool)) : List SEv := (sink.filter fun p => p.1.w == w).map (·.1)
+
+/-- the event main has taken out of the queue and is about to forward -/
+def hand (s : CSt) (w : Nat) : List SEv :=
+  match s.mpc with
+  | .fwd e => if e.w = w then [e] else []
+  | _ => []
+
+/-- the status events worker `w` emits, in its program order -/
+def eventsOf (i : SInput) (w : Nat) : List SEv :=
+  match i.workers[w]? with
+  | some wk => statusesOf (stepItems (segSteps (progOf i w wk).segs))
+  | none => []
+
+structure SInv (i : SInput) (s : CSt) : Prop where
+  acct : ∀ w, w < i.workers.length → sinkOf w s.sink ++ hand s w ++ statusesOf (todoItems s w) = eventsOf i w
+  sink_owner : ∀ p ∈ s.sink, p.1.w < s.nsp
+  fwd_owner : ∀ e, s.mpc = .fwd e → e.w < s.nsp
+
+theorem hand_nil {s : CSt} (h : ∀ e, s.mpc ≠ .fwd e) (w : Nat) : hand s w = [] := by
+  unfold hand; split
+  · rename_i e he; exact absurd he (h e)
+  · rfl
+
+/-- transitions that do not touch sink, queue or workers and neither start nor finish a forward -/
+theorem SInv.transfer {i : SInput} {s s' : CSt} (h : SInv i s) (hs : ∀ e, s.mpc ≠ .fwd e) (hs' : ∀ e, s'.mpc ≠ .fwd e)
+    (hsink : s'.sink = s.sink) (hq : s'.base.queue = s.base.queue) (hpc : ∀ w, s'.base.pcs[w + 1]? = s.base.pcs[w + 1]?)
+    (hnsp : s.nsp ≤ s'.nsp) : SInv i s' := by
+  refine ⟨?_, ?_, fun e he => absurd he (hs' e)⟩
+  · intro w hw
+    rw [hsink, hand_nil hs', todoItems_congr (hpc w) hq]
+    have := h.acct w hw
+    rw [hand_nil hs] at this
+    exact this
+  · intro p hp; rw [hsink] at hp; have := h.sink_owner p hp; omega
+
+theorem SInv_finishMain {i : SInput} {s : CSt} (h : SInv i s) (r : MainRes) (hs : ∀ e, s.mpc ≠ .fwd e) : SInv i (finishMain s r) :=
+  h.transfer hs (by simp) rfl rfl (fun _ => rfl) (Nat.le_refl _)
+
+theorem SInv_loopHead {i : SInput} {s : CSt} (h : SInv i s) (hs : ∀ e, s.mpc ≠ .fwd e) : SInv i (loopHead s) := by
+  unfold loopHead; split
+  · exact SInv_finishMain h _ hs
+  · exact h.transfer hs (by simp) rfl rfl (fun _ => rfl) (Nat.le_refl _)
+
+theorem SInv_abortMain {i : SInput} {s : CSt} (h : SInv i s) (c : Cause) (hs : ∀ e, s.mpc ≠ .fwd e) : SInv i (abortMain i s c) := by
+  refine h.transfer hs ?_ (by simp) (by simp) (fun w => by simp) (by simp)
+  intro e; rcases abortMain_mpc i s c with h1 | h1 <;> simp [h1]
+
+theorem SInv_nextSpawn {i : SInput} {s : CSt} (h : SInv i s) (hs : ∀ e, s.mpc ≠ .fwd e) (k : Nat) : SInv i (nextSpawn i s k) := by
+  unfold nextSpawn; split
+  · exact h.transfer hs (by simp) rfl rfl (fun _ => rfl) (Nat.le_refl _)
+  · split
+    · exact SInv_abortMain h _ hs
+    · exact SInv_loopHead h hs
+
+/-- a started worker's step does not change what is still to be delivered, for any worker -/
+theorem todoItems_workerStep {i : SInput} {s : CSt} (h : QInv i s) (w : Nat) (hw : w < s.nsp) (s' : CSt)
+    (hb : s'.base = stepThread s.base (w + 1)) (w' : Nat) : todoItems s' w' = todoItems s w' := by
+  have hwn : w < i.workers.length := Nat.lt_of_lt_of_le hw (Nat.le_trans h.nsp_le (spawnCount_le i))
+  rcases stepThread_cases s.base (w + 1) with he | ⟨a, rest, hpc, hpcs, hqu⟩
+  · simp [todoItems, wpc, hb, he]
+  · have hlt : w + 1 < s.base.pcs.length := lt_of_getElem?_some hpc
+    have hwpc : wpc s w = a :: rest := by simp [wpc, hpc]
+    by_cases hww : w' = w
+    · subst hww
+      have : wpc s' w' = rest := by simp [wpc, hb, hpcs, hlt]
+      unfold todoItems
+      rw [this, hwpc, hb, hqu]
+      cases a with
+      | put x =>
+        have hx : x.owner = w' := (h.goodT w' hwn).2 x (by simp [todoItems, hwpc, stepItems_cons_put])
+        simp [projQ_append, stepItems_cons_put, projQ, hx]
+      | acq => simp [stepItems]
+      | rel => simp [stepItems]
+      | call c r => simp [stepItems]
+    · have : wpc s' w' = wpc s w' := by
+        have : ¬ (w = w') := fun hc => hww hc.symm
+        simp [wpc, hb, hpcs, this]
+      unfold todoItems
+      rw [this, hb, hqu]
+      cases a with
+      | put x =>
+        have hx : x.owner = w := (h.goodT w hwn).2 x (by simp [todoItems, hwpc, stepItems_cons_put])
+        have : (x.owner == w') = false := by simp [hx]; exact fun hc => hww hc.symm
+        simp [projQ_append, projQ, this]
+      | acq => rfl
+      | rel => rfl
+      | call c r => rfl
+
+theorem sinkOf_append (w : Nat) (a b : List (SEv × Bool)) : sinkOf w (a ++ b) = sinkOf w a ++ sinkOf w b := by
+  simp [sinkOf]
+
+/-- **every step preserves the delivery accounting** -/
+theorem SInv_stepC {i : SInput} {s : CSt} (h : SInv i s) (hq : QInv i s) (t : Nat) : SInv i (stepC i s t) := by
+  unfold stepC
+  split
+  · split
+    · unfold stepMain
+      split
+      · rename_i k hk
+        have hk1 := (hq.mpc_spawn k hk).1
+        have h1 : SInv i { s with nsp := k + 1, reg := s.reg ++ [k] } :=
+          h.transfer (by simp [hk]) (by simp [hk]) rfl rfl (fun _ => rfl) (by show s.nsp ≤ k + 1; omega)
+        exact SInv_nextSpawn h1 (by simp [hk]) _
+      · rename_i hg
+        split
+        · exact SInv_abortMain (h.transfer (s' := { s with ngets := s.ngets + 1 }) (by simp [hg]) (by simp [hg]) rfl rfl (fun _ => rfl) (Nat.le_refl _))
+            _ (by simp [hg])
+        · split
+          · exact h
+          · rename_i x q hqq
+            have hw0 : x.owner < s.nsp := hq.qowner x (by rw [hqq]; exact List.mem_cons_self)
+            -- what is still to deliver, after the pop
+            have hT0 : ∀ s' : CSt, s'.base = { s.base with queue := q } → todoItems s x.owner = x :: todoItems s' x.owner := by
+              intro s' hb; simp [todoItems, wpc, hb, hqq, projQ]
+            have hTne : ∀ s' : CSt, s'.base = { s.base with queue := q } → ∀ w, w ≠ x.owner → todoItems s' w = todoItems s w := by
+              intro s' hb w hw
+              have : (x.owner == w) = false := by simp; exact fun hc => hw hc.symm
+              simp [todoItems, wpc, hb, hqq, projQ, this]
+            have hnofwd : ∀ e, s.mpc ≠ .fwd e := by simp [hg]
+            -- generic: popping a non-status item and moving to a non-forwarding state
+            have hplain : ∀ s' : CSt, s'.base = { s.base with queue := q } → s'.sink = s.sink → s'.nsp = s.nsp →
+                (∀ e, s'.mpc ≠ .fwd e) → statusesOf [x] = [] → SInv i s' := by
+              intro s' hb hsk hn hm' hx
+              refine ⟨?_, by rw [hsk, hn]; exact h.sink_owner, fun e he => absurd he (hm' e)⟩
+              intro w hw
+              have := h.acct w hw
+              rw [hand_nil hnofwd] at this
+              rw [hsk, hand_nil hm']
+              by_cases hwx : w = x.owner
+              · subst hwx
+                rw [hT0 s' hb] at this
+                have e1 : statusesOf (x :: todoItems s' x.owner) = statusesOf [x] ++ statusesOf (todoItems s' x.owner) := by
+                  unfold statusesOf; rw [← List.filterMap_append]; rfl
+                rw [e1, hx] at this
+                simpa using this
+              · rw [hTne s' hb w hwx]; exact this
+            split
+            · exact hplain _ rfl rfl rfl (by simp) rfl
+            · exact hplain _ rfl rfl rfl (by simp) rfl
+            · have h1 : SInv i { s with base := { s.base with queue := q }, ngets := s.ngets + 1 } :=
+                hplain _ rfl rfl rfl (by simp [hg]) rfl
+              exact SInv_loopHead h1 (by simp [hg])
+            · rename_i e
+              refine ⟨?_, h.sink_owner, ?_⟩
+              · intro w hw
+                have := h.acct w hw
+                rw [hand_nil hnofwd] at this
+                by_cases hwx : w = e.w
+                · subst hwx
+                  have hT := hT0 { s with base := { s.base with queue := q }, ngets := s.ngets + 1, mpc := .fwd e } rfl
+                  simp only [Item.owner] at hT
+                  rw [hT] at this
+                  simp only [hand, if_true]
+                  simpa [statusesOf] using this
+                · have hT := hTne { s with base := { s.base with queue := q }, ngets := s.ngets + 1, mpc := .fwd e } rfl w hwx
+                  rw [hT]
+                  have hne : ¬ e.w = w := fun hc => hwx hc.symm
+                  simp only [hand, hne, if_false]
+                  exact this
+              · intro e' he'
+                simp at he'; subst he'
+                exact hw0
+      · rename_i w hw
+        split
+        · exact SInv_loopHead (h.transfer (s' := { s with joined := s.joined ++ [w] }) (by simp [hw]) (by simp [hw]) rfl rfl (fun _ => rfl) (Nat.le_refl _))
+            (by simp [hw])
+        · exact h
+      · rename_i e he
+        have hew := h.fwd_owner e he
+        -- the forwarded event moves from main's hand into the sink
+        have h1 : SInv i { s with sink := s.sink ++ [(e, i.mfaults.contains s.nstatus)], nstatus := s.nstatus + 1, mpc := .done } := by
+          refine ⟨?_, ?_, fun e' he' => by simp at he'⟩
+          · intro w hw
+            have := h.acct w hw
+            rw [hand_nil (by simp)]
+            show sinkOf w (s.sink ++ [(e, i.mfaults.contains s.nstatus)]) ++ [] ++ statusesOf (todoItems s w) = _
+            rw [sinkOf_append]
+            by_cases hwx : e.w = w
+            · simp only [hand, he, hwx, if_true] at this
+              simpa [sinkOf, hwx] using this
+            · simp only [hand, he, hwx, if_false] at this
+              have hne : (e.w == w) = false := by simp [hwx]
+              simpa [sinkOf, hne] using this
+          · intro p hp
+            rcases List.mem_append.mp hp with hp | hp
+            · exact h.sink_owner p hp
+            · simp at hp; subst hp; exact hew
+        dsimp only
+        split
+        · have := SInv_abortMain h1 .injected (by simp)
+          have e1 := abortMain_mpc_irrel i { s with sink := s.sink ++ [(e, i.mfaults.contains s.nstatus)], nstatus := s.nstatus + 1 } .done .injected
+          rw [e1] at this
+          exact this
+        · have := SInv_loopHead h1 (by simp)
+          have e1 := loopHead_mpc_irrel { s with sink := s.sink ++ [(e, i.mfaults.contains s.nstatus)], nstatus := s.nstatus + 1 } .done
+          rw [e1] at this
+          exact this
+      · rename_i ha
+        have hqs := QInv_abortStep hq ha
+        have h1 : SInv i { s with base := stepThread s.base 0 } := by
+          refine ⟨?_, h.sink_owner, h.fwd_owner⟩
+          intro w hw
+          have hT : todoItems { s with base := stepThread s.base 0 } w = todoItems s w := by
+            rcases stepThread_cases s.base 0 with he | ⟨a, rest, hpc, hpcs, hqu⟩
+            · rw [he]
+            · have h0 := hq.main_noput
+              rw [hpc] at h0
+              obtain ⟨hnp, _⟩ := stepItems_nil_cons (by simpa using h0)
+              have hq' : (stepThread s.base 0).queue = s.base.queue := by
+                rw [hqu]; cases a <;> simp_all
+              exact todoItems_congr (by simp [hpcs]) hq'
+          rw [hT]
+          have := h.acct w hw
+          simpa [hand, ha] using this
+        dsimp only
+        split
+        · exact SInv_finishMain h1 _ (by simp [ha])
+        · exact h1
+      · exact h
+    · exact h
+  · split
+    · rename_i ht hlt
+      have ht' : t = (t - 1) + 1 := by omega
+      refine ⟨?_, h.sink_owner, h.fwd_owner⟩
+      intro w hw
+      have hT := todoItems_workerStep hq (t - 1) hlt { s with base := stepThread s.base t, flags := flagsAfter s t } (by rw [← ht']) w
+      rw [hT]
+      exact h.acct w hw
+    · exact h
+
 end TTV.Conc
